@@ -53,7 +53,7 @@ func drawDPPlan(rt *rapid.T) dpPlan {
 	p := dpPlan{
 		KeyLen:     rapid.SampledFrom([]int{16, 32}).Draw(rt, "keyLen"),
 		Mode:       rapid.SampledFrom([]credx.Mode{credx.TCPOnly, credx.UDPOnly, credx.Both, credx.Both}).Draw(rt, "mode"),
-		Kind:       rapid.SampledFrom([]string{"api", "api", "api", "reload", "mixed"}).Draw(rt, "kind"),
+		Kind:       rapid.SampledFrom([]string{"api", "api", "reload", "mixed"}).Draw(rt, "kind"),
 		Bystanders: rapid.IntRange(2, 4).Draw(rt, "bystanders"),
 		Writers:    rapid.IntRange(2, 4).Draw(rt, "writers"),
 		Ops:        rapid.IntRange(40, 400).Draw(rt, "ops"),
